@@ -456,6 +456,15 @@ func finishScalar(t *rapid.T, c *ScalarCase) {
 	}
 	c.Plus = rapid.Bool().Draw(t, "plusForBlank")
 	c.Bare = rapid.Bool().Draw(t, "bareWhenEmpty")
+	if rapid.IntRange(0, 3).Draw(t, "otherKey") == 2 {
+		// map / url carriers: our entry under another name, now and then next to an entry whose name
+		// differs by a suffix or the case only (and which no rule mentions)
+		pair := rapid.SampledFrom(scalarKeys).Draw(t, "key")
+		c.Key = pair[0]
+		if rapid.Bool().Draw(t, "nearEntry") {
+			c.Near = pair[1]
+		}
+	}
 	c.Lead = rapid.SampledFrom([]string{"", "", "", "time", "time", "unexported", "plain", "all", "", "", "wide"}).Draw(t, "leadFields")
 }
 
